@@ -18,6 +18,7 @@ Inductive nexp :=
 | NWsLimit             (* WHITESPACE_LIMIT *)
 | NLit (n : nat)
 | NSub (a b : nexp)
+| NAdd (a b : nexp)   (* usize addition; positions are far below the overflow *)
 | NFold                (* the value bound by `if let Some(x) = x` for the folded minimum / maximum *)
 | NLeftB               (* refset.leftmost().unwrap().begin() *)
 | NRightE.             (* refset.rightmost().unwrap().end() *)
@@ -94,6 +95,7 @@ Section Eval.
         | Some x, Some y => if y <=? x then Some (x - y) else None
         | _, _ => None
         end
+    | NAdd a b => match eval_n var a, eval_n var b with Some x, Some y => Some (x + y) | _, _ => None end
     | NFold => fold
     | NLeftB => lmb
     | NRightE => rme
